@@ -8,39 +8,60 @@ Definition cmp_cran_pure (v w : cran) : comparison :=
 Lemma cmp_cran_pure_tp : TotalPreorder cmp_cran_pure.
 Proof. apply lex2_tp; apply by_key_tp; [apply comps_cmp_pure_tp | apply Natcompare_tp]. Qed.
 
-Lemma cmp_cran_antisym : forall v w, cmp_cran w v = oppO (cmp_cran v w).
+Lemma cmp_cran_raw_antisym : forall v w, cmp_cran_raw w v = oppO (cmp_cran_raw v w).
 Proof.
-  intros v w. unfold cmp_cran. rewrite (comps_cmp_antisym (cr_comps v) (cr_comps w)).
+  intros v w. unfold cmp_cran_raw. rewrite (comps_cmp_antisym (cr_comps v) (cr_comps w)).
   destruct (comps_cmp (cr_comps v) (cr_comps w)) as [[]| |]; simpl; try reflexivity.
   rewrite Nat.compare_antisym. reflexivity.
 Qed.
 
-Lemma cmp_cran_refl : forall v, cmp_cran v v = Ok Eq.
-Proof. intros v. unfold cmp_cran. rewrite comps_cmp_refl. simpl. rewrite Nat.compare_refl. reflexivity. Qed.
+Lemma cmp_cran_raw_on_valid : forall v w, valid_cran v = true -> valid_cran w = true ->
+  cmp_cran_raw v w = Ok (cmp_cran_pure v w).
+Proof.
+  intros v w Hv Hw. unfold cmp_cran_raw, cmp_cran_pure, lex2, by_key, valid_cran in *.
+  rewrite (comps_cmp_is_pure _ _ Hv Hw). simpl.
+  destruct (comps_cmp_pure (cr_comps v) (cr_comps w)); reflexivity.
+Qed.
+
+(* antisymmetry: ALL structures (an invalid side gives Err in both orders) *)
+Lemma cmp_cran_antisym : forall v w, cmp_cran w v = oppO (cmp_cran v w).
+Proof.
+  intros v w. unfold cmp_cran. rewrite (andb_comm (valid_cran w)).
+  destruct (valid_cran v && valid_cran w); [apply cmp_cran_raw_antisym | reflexivity].
+Qed.
 
 Lemma cmp_cran_on_valid : forall v w, valid_cran v = true -> valid_cran w = true ->
   cmp_cran v w = Ok (cmp_cran_pure v w).
+Proof. intros v w Hv Hw. unfold cmp_cran. rewrite Hv, Hw. apply cmp_cran_raw_on_valid; assumption. Qed.
+
+Lemma cmp_cran_refl : forall v, cmp_cran v v = Ok Eq \/ cmp_cran v v = Err.
 Proof.
-  intros v w Hv Hw. unfold cmp_cran, cmp_cran_pure, lex2, by_key, valid_cran in *.
-  rewrite (comps_cmp_is_pure _ _ Hv Hw). simpl.
-  destruct (comps_cmp_pure (cr_comps v) (cr_comps w)); reflexivity.
+  intros v. unfold cmp_cran. destruct (valid_cran v) eqn:E; simpl; [left | right; reflexivity].
+  rewrite (cmp_cran_raw_on_valid v v E E), (tp_refl _ cmp_cran_pure_tp). reflexivity.
 Qed.
 
 Lemma cmp_cran_laws_on_valid : trans_law_on valid_cran cmp_cran /\ eq_equiv_law_on valid_cran cmp_cran.
 Proof. apply (laws_of_tp _ _ cmp_cran_pure); [apply cmp_cran_pure_tp | apply cmp_cran_on_valid]. Qed.
 
-Lemma cmp_cran_total_on_valid : forall v w, valid_cran v = true -> valid_cran w = true -> cmp_cran v w <> Panic.
-Proof. intros v w Hv Hw. rewrite (cmp_cran_on_valid v w Hv Hw). discriminate. Qed.
+(* never panics: every pair of structures *)
+Lemma cmp_cran_total : forall v w, cmp_cran v w <> Panic.
+Proof.
+  intros v w. unfold cmp_cran. destruct (valid_cran v) eqn:Ev; destruct (valid_cran w) eqn:Ew; simpl; try discriminate.
+  rewrite (cmp_cran_raw_on_valid v w Ev Ew). discriminate.
+Qed.
 
-Lemma cran_str_total_on_valid : forall a b, valid_cran_string a = true -> valid_cran_string b = true ->
+Lemma cran_str_total : forall a b, compare_str_cran a b <> Panic.
+Proof. intros a b. unfold compare_str_cran, parse_cran. cbn [obind]. apply cmp_cran_total. Qed.
+
+Lemma cran_str_ok_on_valid : forall a b, valid_cran_string a = true -> valid_cran_string b = true ->
   exists c, compare_str_cran a b = Ok c.
 Proof.
-  intros a b Ha Hb. unfold compare_str_cran, valid_cran_string, parse_cran in *. simpl in *.
+  intros a b Ha Hb. unfold compare_str_cran, valid_cran_string, parse_cran in *. cbn [obind] in *.
   rewrite (cmp_cran_on_valid _ _ Ha Hb). eexists; reflexivity.
 Qed.
 
 Lemma cran_str_antisym_lemma : forall a b, compare_str_cran b a = oppO (compare_str_cran a b).
-Proof. intros. unfold compare_str_cran, parse_cran. simpl. apply cmp_cran_antisym. Qed.
+Proof. intros. unfold compare_str_cran, parse_cran. cbn [obind]. apply cmp_cran_antisym. Qed.
 
-Lemma cran_str_refl_lemma : forall a, compare_str_cran a a = Ok Eq.
-Proof. intros. unfold compare_str_cran, parse_cran. simpl. apply cmp_cran_refl. Qed.
+Lemma cran_str_refl_lemma : forall a, compare_str_cran a a = Ok Eq \/ compare_str_cran a a = Err.
+Proof. intros. unfold compare_str_cran, parse_cran. cbn [obind]. apply cmp_cran_refl. Qed.
